@@ -55,3 +55,88 @@ prop(
         "ref.Parse is a correct reading of RFC 5389 framing with the tolerances the property lists",
     ],
 )
+
+prop(
+    "C03",
+    timeout={"quick": 300, "thorough": 3000},
+    rule="seeded random sequences of building operations (Add/RawAttribute, SetType/MessageType.AddTo, 4 transaction-id setters, "
+         "6 address setters, 4 text setters, ErrorCodeAttribute/ErrorCode, UnknownAttributes, MessageIntegrity short/long-term, "
+         "Fingerprint, Encode, WriteHeader, CloneTo, Build(setters), Write* helpers) from 4 start states (Build on fresh, "
+         "WriteHeader/Encode on new/New(), Build on a poisoned reused buffer, a decoded dirty message); after EVERY operation the "
+         "monitor checks cookie/length/padding, reference parse == shadow list, struct == shadow, library decode == struct, Equal, "
+         "and canonical bytes after Encode. evaluations = sequences; distinct_nontrivial = distinct operation-name sequences",
+    assumptions=[
+        "sequences stay within the stated precondition (total attribute bytes <= 65535)",
+        "zero padding is required of attributes written by a building operation (inherited wire padding of a decoded start is kept until Encode)",
+        "Equal is not asserted for sequences that Add the legacy alias type 0x8020 explicitly (struct holds 0x8020, decode maps to 0x0020)",
+        "signing setters are not applied to a decoded message that still carries bytes after its declared length (DESIGN 5.3)",
+        "values appended by typed setters are adopted from the struct (their wire format is C06's subject)",
+    ],
+)
+
+prop(
+    "C04",
+    configs={"quick": ["rel", "dbg"], "thorough": ["rel", "dbg"]},
+    timeout={"quick": 300, "thorough": 3000},
+    rule="(a) hand-encoded messages: 0..8 attributes before MESSAGE-INTEGRITY, 0..4 after (all residues, incl. FINGERPRINT and a second "
+         "MESSAGE-INTEGRITY), MAC variants correct/random/other-key/truncated 0,4,19/extended 21,24/bit-flipped/absent, random padding, "
+         "leading type bits, trailing bytes, keys 0..200 B incl. 63/64/65; (b) library-signed messages (short- and long-term) checked "
+         "under the right key and 3 wrong keys, appended bytes compared with the oracle MAC, refusal after FINGERPRINT; (c) every "
+         "single-bit flip of library-signed messages. Oracle: crypto/hmac+crypto/sha1 over the span chosen by the reference parser; "
+         "library verdict must equal oracle verdict, and must be 'fail' for flips of covered bytes. evaluations = Check calls "
+         "judged; distinct_nontrivial = distinct base messages (FNV-64 of the bytes)",
+    assumptions=[
+        "stdlib crypto/hmac and crypto/sha1 are correct",
+        "flips of header bytes 2..3 are judged by the oracle only (RFC 5389 rewrites that field before hashing)",
+        "'signed message verifies' is asserted where the library's MAC is the first MESSAGE-INTEGRITY attribute",
+    ],
+)
+
+prop(
+    "C05",
+    configs={"quick": ["rel", "dbg"], "thorough": ["rel", "dbg"]},
+    timeout={"quick": 300, "thorough": 3000},
+    rule="(a) library-fingerprinted messages (with/without MESSAGE-INTEGRITY before): appended value vs bitwise CRC-32 oracle, then EVERY "
+         "bit position flipped; (b) random bursts of width 2..32 in transmission (LSB-first) bit order; (c) arbitrary decodable messages "
+         "with 1-2 FINGERPRINT attributes of any length and position, random padding/trailing bytes, first one made correct in half "
+         "of the cases. Library verdict must equal the oracle's 'first FINGERPRINT is 4 bytes and equals CRC(raw[:len-8])^0x5354554e'; "
+         "corruptions that stay decodable with exactly one FINGERPRINT must fail. evaluations = Check verdicts judged (or decode "
+         "failures observed); distinct_nontrivial = distinct base messages",
+    assumptions=[
+        "ref.CRC32 (bitwise, reflected polynomial 0xEDB88320) is the IEEE 802.3 CRC (cross-checked on the RFC 5769 vectors)",
+        "'burst of up to 32 bits' is taken in the CRC's transmission bit order (DESIGN C05: MSB-first numbering has undetectable 31/32-bit patterns by construction of CRC-32)",
+    ],
+)
+
+prop(
+    "C06",
+    timeout={"quick": 300, "thorough": 3000},
+    rule="(1) all 65536 ports x {IPv4, IPv6, IPv4-mapped IPv6} x 7 address attribute entry points (XOR-MAPPED-ADDRESS, XORMappedAddress.AddToAs "
+         "over 7 types, MAPPED-ADDRESS, MappedAddress.AddToAs, ALTERNATE-SERVER, RESPONSE-ORIGIN, OTHER-ADDRESS) with random addresses and "
+         "transaction ids, plus extra random cases; (2) the four text attributes at every length 0..limit and limit+1; (3) every error "
+         "code 300..699 with 7 reason lengths; (4) UNKNOWN-ATTRIBUTES lists of 0..64 types. Each value: library bytes == independent RFC "
+         "encoder, independent RFC decoder reads the library bytes, library getter reads both the re-decoded library message and a "
+         "reference-encoded message (destination values reused across families). evaluations = values pushed through the cycle; "
+         "distinct_nontrivial = distinct (port | text length x attribute | error code | type list) points",
+    exhaustive_all=None,
+    assumptions=[
+        "ref.Enc*/Dec* transcribe RFC 5389 section 15.1/15.2/15.6/15.9 (XOR decoder cross-checked on RFC 5769 vector 2.2)",
+        "text limits pinned in the harness: USERNAME 513, REALM/NONCE/SOFTWARE 763 (the library's documented constants)",
+    ],
+)
+
+prop(
+    "C07",
+    configs={"quick": ["rel", "dbg"], "thorough": ["rel", "dbg"]},
+    timeout={"quick": 300, "thorough": 3000},
+    rule="complete grid of 18 getters/checkers x value length 0..40 x position (first/middle/last) x capacity (exact, +1,+2,+7,+20,+64), "
+         "each cell repeated with fresh random content (10 quick / 100 thorough): twin messages sharing only the attribute value (plus "
+         "transaction id; the covered prefix for MESSAGE-INTEGRITY; all bytes for FINGERPRINT) and differing in padding, neighbours "
+         "(twin A: bytes a sloppy reader accepts as family codes; twin B: 0xFF/random), position, spare capacity and its fill. "
+         "Violations: recovered panic, outcome (error class + text, or produced value) differing between twins, any before/after "
+         "difference of Raw/Length/Attributes. evaluations = twin pairs; distinct_nontrivial = grid cells visited",
+    assumptions=[
+        "cap(Raw)==len(Raw) placement plays the role of a red zone: a read past the message end is a Go bounds panic",
+        "values produced on the error path are not compared (only the error class and text)",
+    ],
+)
